@@ -87,7 +87,6 @@ Definition label_ok (A : ast) (u : union_t) (l : string) : Prop :=
 Definition union_ok (A : ast) (u : union_t) : Prop :=
   (forall c l, In c (un_cases u) -> In l (uc_values c) -> label_ok A u l) /\
   (forall l, In l (un_void u) -> l <> "default"%string -> label_ok A u l) /\
-  (forall pre post, un_void u = pre ++ "default"%string :: post -> post = []) /\
   (forall c, un_default u = Some c -> ~ In "default"%string (un_void u)).
 
 Record sup (A : ast) : Prop := {
@@ -313,13 +312,34 @@ Section Sel.
     Qed.
 
     Definition void_entry (l : string) : matcher * string * option dexp :=
-      (if String.eqb l "default" then MWild else label_matcher A (un_sw_type u) l, variant_name l, @None dexp).
+      (label_matcher A (un_sw_type u) l, variant_name l, @None dexp).
+
+    Let nd (l : string) : bool := negb (String.eqb l "default").
 
     Lemma void_nomatch l : In l (un_void u) -> l <> "default"%string -> sel l = false -> nomatch dd (void_entry l).
     Proof.
       intros Hin Hnd Hs. unfold nomatch, void_entry. cbn [fst].
-      destruct (String.eqb_spec l "default"); [contradiction|].
       rewrite (label_agree u l d dd (proj1 (proj2 Hok) l Hin Hnd) Hdisc Td Hdd). unfold sel in Hs. now rewrite Hs.
+    Qed.
+
+    Lemma find_filter {X} (p q : X -> bool) L : find (fun x => (p x && q x)%bool) L = find q (filter p L).
+    Proof.
+      induction L as [|x L IH]; [reflexivity|]. cbn [find filter].
+      destruct (p x); cbn [andb find]; [destruct (q x); [reflexivity|exact IH]|exact IH].
+    Qed.
+
+    Lemma voids_nomatch L :
+      (forall l, In l L -> In l (un_void u) /\ l <> "default"%string /\ sel l = false) ->
+      Forall (nomatch dd) (map void_entry L).
+    Proof.
+      intros H. apply Forall_forall. intros x Hx. apply in_map_iff in Hx as [l [<- Hl]].
+      destruct (H l Hl) as [H1 [H2 H3]]. now apply void_nomatch.
+    Qed.
+
+    Lemma in_voids l : In l (filter nd (un_void u)) -> In l (un_void u) /\ l <> "default"%string.
+    Proof.
+      intros H. apply filter_In in H as [H1 H2]. split; [exact H1|].
+      unfold nd in H2. apply Bool.negb_true_iff, String.eqb_neq in H2. exact H2.
     Qed.
 
     (* Hsel for this union *)
@@ -337,7 +357,10 @@ Section Sel.
       destruct (emapM _ (un_cases u)) as [rows| |] eqn:Erows; cbn [ebind] in Hb; try discriminate.
       destruct (match un_default u with Some d0 => _ | None => _ end) as [fb'| |] eqn:Efb; cbn [ebind] in Hb; try discriminate.
       inversion Hb; subst dv disc arms fb. clear Hb.
-      destruct Hok as [Hlab [Hvoid [Hlast Hdef]]].
+      fold nd. fold void_entry.
+      change (map (fun l => (label_matcher A (un_sw_type u) l, variant_name l, @None dexp)))
+        with (map void_entry).
+      destruct Hok as [Hlab [Hvoid Hdef]].
       pose proof (data_sel (un_cases u) rows Hlab Erows) as Hdata.
       unfold arm_for in Harm. fold sel in Harm.
       change (fun c => existsb (fun l => label_selects A l d) (uc_values c))
@@ -347,69 +370,50 @@ Section Sel.
         destruct Hdata as [l [e [pre [post [Hfind [Hcat [Hpre [Hm He]]]]]]]].
         change (fun l0 => label_selects A l0 d) with sel in Harm. rewrite Hfind in Harm.
         inversion Harm; subst variant ty. exists (Some e). split; [|eauto].
-        left. exists pre, (label_matcher A (un_sw_type u) l), (post ++ map void_entry (un_void u)).
+        left. eexists pre, (label_matcher A (un_sw_type u) l), _.
         split; [|split; assumption].
         rewrite Hcat, documented_variant_eq. unfold data_entry. rewrite <- app_assoc. reflexivity.
       - (* no data arm: void labels, then default *)
-        pose proof (find_split (fun l => (negb (String.eqb l "default") && sel l)%bool) (un_void u)) as Hv.
         change (fun l0 => (negb (l0 =? "default")%string && label_selects A l0 d)%bool)
-          with (fun l0 => (negb (String.eqb l0 "default") && sel l0)%bool) in Harm.
-        destruct (find (fun l => (negb (String.eqb l "default") && sel l)%bool) (un_void u)) as [l|].
-        + destruct Hv as [p1 [p2 [Eq [Hp1 Hl]]]]. apply Bool.andb_true_iff in Hl as [Hl1 Hl2].
-          apply Bool.negb_true_iff in Hl1. apply String.eqb_neq in Hl1.
+          with (fun l0 => (nd l0 && sel l0)%bool) in Harm.
+        rewrite find_filter in Harm.
+        pose proof (find_split sel (filter nd (un_void u))) as Hv.
+        destruct (find sel (filter nd (un_void u))) as [l|].
+        + destruct Hv as [p1 [p2 [Eq [Hp1 Hl]]]].
+          assert (Hinl : In l (filter nd (un_void u))) by (rewrite Eq; apply in_or_app; right; now left).
+          destruct (in_voids l Hinl) as [Hl0 Hl1].
           inversion Harm; subst variant ty. exists None. split; [|reflexivity].
-          left. exists (concat rows ++ map void_entry p1), (label_matcher A (un_sw_type u) l), (map void_entry p2).
+          left. eexists (concat rows ++ map void_entry p1), (label_matcher A (un_sw_type u) l), _.
           split.
           { rewrite Eq, map_app. cbn [map]. unfold void_entry at 2.
-            destruct (String.eqb_spec l "default"); [contradiction|].
-            rewrite app_assoc. reflexivity. }
+            rewrite <- !app_assoc. cbn [app]. reflexivity. }
           split.
-          { apply Forall_app. split; [exact Hdata|]. apply Forall_forall. intros x Hx.
-            apply in_map_iff in Hx as [l' [<- Hl']].
-            pose proof (proj1 (Forall_forall _ _) Hp1 l' Hl') as Hf.
-            assert (Hin' : In l' (un_void u)) by (rewrite Eq; apply in_or_app; now left).
-            assert (Hnd' : l' <> "default"%string).
-            { intros ->. apply in_split in Hl' as [q1 [q2 Eq1]]. rewrite Eq1 in Eq.
-              rewrite <- app_assoc in Eq. cbn [app] in Eq.
-              pose proof (Hlast q1 (q2 ++ l :: p2) Eq) as C. destruct q2; discriminate. }
-            apply void_nomatch; try assumption.
-            apply Bool.andb_false_iff in Hf as [Hf|Hf]; [|exact Hf].
-            apply Bool.negb_false_iff, String.eqb_eq in Hf. contradiction. }
-          rewrite (label_agree u l d dd (Hvoid l ltac:(rewrite Eq; apply in_or_app; right; now left) Hl1) Hdisc Td Hdd).
-          unfold sel in Hl2. now rewrite Hl2.
+          { apply Forall_app. split; [exact Hdata|]. apply voids_nomatch. intros l' Hl'.
+            assert (Hin' : In l' (filter nd (un_void u))) by (rewrite Eq; apply in_or_app; now left).
+            destruct (in_voids l' Hin') as [Ha Hb]. split; [exact Ha|]. split; [exact Hb|].
+            exact (proj1 (Forall_forall _ _) Hp1 l' Hl'). }
+          rewrite (label_agree u l d dd (Hvoid l Hl0 Hl1) Hdisc Td Hdd).
+          unfold sel in Hl. now rewrite Hl.
         + (* default *)
+          assert (Hall : Forall (nomatch dd) (map void_entry (filter nd (un_void u)))).
+          { apply voids_nomatch. intros l' Hl'. destruct (in_voids l' Hl') as [Ha Hb].
+            split; [exact Ha|]. split; [exact Hb|]. exact (proj1 (Forall_forall _ _) Hv l' Hl'). }
           destruct (un_default u) as [dc|] eqn:Edc.
           * inversion Harm; subst variant ty.
             destruct (decode_array A (uc_value dc) UseAlias) as [e| |] eqn:Ee; cbn [ebind] in Efb; try discriminate.
             inversion Efb; subst fb'. exists (Some e). split; [|eauto].
             right. split; [|split; [reflexivity|eauto]].
-            apply Forall_app. split; [exact Hdata|]. apply Forall_forall. intros x Hx.
-            apply in_map_iff in Hx as [l' [<- Hl']].
-            pose proof (proj1 (Forall_forall _ _) Hv l' Hl') as Hf.
-            assert (Hnd' : l' <> "default"%string) by (intros ->; exact (Hdef dc eq_refl Hl')).
-            apply void_nomatch; try assumption.
-            apply Bool.andb_false_iff in Hf as [Hf|Hf]; [|exact Hf].
-            apply Bool.negb_false_iff, String.eqb_eq in Hf. contradiction.
+            assert (Em : mem "default" (un_void u) = false).
+            { destruct (mem "default" (un_void u)) eqn:Em; [|reflexivity].
+              apply mem_In in Em. exfalso. exact (Hdef dc eq_refl Em). }
+            rewrite Em, app_nil_r.
+            apply Forall_app. split; [exact Hdata|exact Hall].
           * destruct (mem "default" (un_void u)) eqn:Em; [|discriminate].
             inversion Harm; subst variant ty. exists None. split; [|reflexivity].
-            apply mem_In in Em. apply in_split in Em as [q1 [q2 Eq]].
-            pose proof (Hlast q1 q2 Eq) as ->.
-            left. exists (concat rows ++ map void_entry q1), MWild, [].
-            split.
-            { rewrite Eq, map_app. cbn [map]. unfold void_entry. rewrite String.eqb_refl.
-              rewrite app_assoc. reflexivity. }
+            left. exists (concat rows ++ map void_entry (filter nd (un_void u))), MWild, [].
+            split; [rewrite <- app_assoc; reflexivity|].
             split; [|reflexivity].
-            apply Forall_app. split; [exact Hdata|]. apply Forall_forall. intros x Hx.
-            apply in_map_iff in Hx as [l' [<- Hl']].
-            assert (Hin' : In l' (un_void u)) by (rewrite Eq; apply in_or_app; now left).
-            pose proof (proj1 (Forall_forall _ _) Hv l' Hin') as Hf.
-            assert (Hnd' : l' <> "default"%string).
-            { intros ->. apply in_split in Hl' as [r1 [r2 Eq1]]. rewrite Eq1 in Eq.
-              rewrite <- app_assoc in Eq. cbn [app] in Eq.
-              pose proof (Hlast r1 (r2 ++ ["default"%string]) Eq) as C. destruct r2; discriminate. }
-            apply void_nomatch; try assumption.
-            apply Bool.andb_false_iff in Hf as [Hf|Hf]; [|exact Hf].
-            apply Bool.negb_false_iff, String.eqb_eq in Hf. contradiction.
+            apply Forall_app. split; [exact Hdata|exact Hall].
     Qed.
   End OneUnion.
 
